@@ -21,6 +21,7 @@ package store
 import (
 	"path"
 	"strconv"
+	"strings"
 )
 
 const (
@@ -46,4 +47,12 @@ func getTaskCollectionPositionPrefixWithTaskID(rootPath string, taskID string) s
 
 func getTaskCollectionPositionKey(rootPath string, taskID string, collectionID int64) string {
 	return path.Join(rootPath, taskPositionPrefix, taskID, strconv.FormatInt(collectionID, 10))
+}
+
+var likePatternEscaper = strings.NewReplacer(`\`, `\\`, `%`, `\%`, `_`, `\_`)
+
+// getLikePrefixPattern returns the LIKE pattern (to be passed as a statement argument) which matches the keys
+// starting with the prefix, the wildcard characters in the prefix are escaped.
+func getLikePrefixPattern(prefix string) string {
+	return likePatternEscaper.Replace(prefix) + "%"
 }
